@@ -237,7 +237,55 @@ def judge(case, m):
             m.cls("atom:" + a.split("(")[0])
 
 
+NOCOL_FORMULAS = ["1", "I(yy) ~ 1", "I(yy) ~ I(zz)", "I(yy) ~ 0 + I(zz) + np.log(ww)", "I(yy) ~ I(zz * 2):I(ww)"]
+
+
+def judge_no_columns(seed, formula, m):
+    """A formula that mentions no column of the frame (all its variables come from the namespace): every
+    column of the frame is unused, so removing any of them - all of them too - changes nothing."""
+    import formulae
+
+    rng = np.random.default_rng(seed)
+    n = int(rng.integers(3, 12))
+    ns = {"yy": rng.normal(size=n), "zz": rng.normal(size=n), "ww": rng.uniform(1, 2, size=n)}
+    df = pd.DataFrame({"u1": rng.normal(size=n), "u2": list("ab" * n)[:n], "u3": np.arange(n)},
+                      index=pd.Index([f"r{j}" for j in range(n)]) if seed % 2 else None)
+    case = {"text": formula, "seed": seed, "no_columns": True}
+    m.current_case = case
+    try:
+        base = formulae.design_matrices(formula, df, extra_namespace=ns)
+        base_sig, base_exc = signature(base, df.iloc[:0]), None
+    except Exception as e:
+        base_sig, base_exc = None, e
+    for keep in (["u1", "u2"], ["u3"], []):
+        m.ev("unused-columns")
+        try:
+            with core.shadow():
+                other = attach.ORIG["design_matrices"](formula, df[keep], "drop", 0, ns)
+            sig, exc = signature(other, df[keep].iloc[:0]), None
+        except Exception as e:
+            sig, exc = None, e
+        if (base_exc is None) != (exc is None):
+            m.violation("unused-columns", f"{formula!r} (no column of the frame is used): with all columns "
+                        f"{'accepted' if base_exc is None else 'refused: ' + repr(base_exc)}, with columns {keep} "
+                        f"{'accepted' if exc is None else 'refused: ' + repr(exc)}", case={**case, "keep": keep},
+                        key="unused-columns:no-column-used")
+        elif exc is None:
+            for k in ("response", "common"):
+                a, b = base_sig[k], sig[k]
+                if (a is None) != (b is None) or (a is not None and (a.shape != b.shape or not np.array_equal(a, b))):
+                    m.violation("unused-columns", f"{formula!r}: {k} differs once the frame only has the columns {keep}",
+                                case={**case, "keep": keep}, key="unused-columns:no-column-used-values")
+
+
 def run_shard(i, n, tier, seed, m):
+    for j, formula in enumerate(NOCOL_FORMULAS):
+        for rep in range(2 if tier == "quick" else 12):
+            if (j * 12 + rep) % n != i:
+                continue
+            sd = seed * 131 + j * 17 + rep
+            m.case({"text": formula, "seed": sd, "no_columns": True}, canon=[formula, sd], nontrivial=True)
+            core.guarded(judge_no_columns)(sd, formula, m)
     rng = random.Random(seed * 1000003 + i * 23 + 8)
     ncases = (2000 if tier == "quick" else 30000) // n
     for k in range(ncases):
@@ -254,4 +302,6 @@ def run_shard(i, n, tier, seed, m):
 
 
 def replay(rec, m):
+    if rec["case"].get("no_columns"):
+        return judge_no_columns(rec["case"]["seed"], rec["case"]["text"], m)
     judge(rec["case"], m)
